@@ -62,6 +62,11 @@ def lean_obligations(res, pid, extra_targets=()):
     # companion modules of the property (e.g. Ekit/Props/C06HW.lean: the Herlihy–Wing forms) are obligations too
     companions = sorted("Ekit.Props." + f[:-5] for f in os.listdir(os.path.join(core.LEAN, "Ekit", "Props"))
                         if f.startswith(pid) and f.endswith(".lean") and f[:-5] != pid)
+    # soundness theorems about the driver's own replayers that go through this property's theorems
+    # (lean/Driver/Ev/<Name><pid>.lean, e.g. BQSoundC07): audited with the property, never linked into the driver
+    evdir = os.path.join(core.LEAN, "Driver", "Ev")
+    if os.path.isdir(evdir):
+        companions += sorted("Driver.Ev." + f[:-5] for f in os.listdir(evdir) if f.endswith(pid + ".lean"))
     rc, log = core.lake_build([mod] + companions + list(extra_targets))
     # the driver executable contains the acceptors of ALL areas; if some OTHER property's regenerated
     # definitions broke its build, that is not this property's obligation: use the reference driver.
@@ -90,6 +95,8 @@ def lean_obligations(res, pid, extra_targets=()):
         ok = False
         res.broken_proof = {"obligation": f["theorem"], "errors": [f["reason"]]}
     srcs = core.lean_sources_of(mod)
+    for c in companions:
+        srcs += [x for x in core.lean_sources_of(c) if x not in srcs]
     hits = core.grep_forbidden(srcs)
     res.obligation("no sorry/admit/axiom/native_decide/bv_decide/implemented_by/unsafe in %d source files" % len(srcs),
                    not hits, hits=hits)
